@@ -352,6 +352,18 @@ func genTxn(flows []flowSpec) *rapid.Generator[txnSpec] {
 		}
 		if !tx.Response && rapid.IntRange(0, 1).Draw(t, "q") == 0 {
 			tx.Query = "q=" + rapid.SampledFrom([]string{"1", "2", "3"}).Draw(t, "qv")
+			// further pairs next to the one the filters look at: ordinary ones, and ones a strict query parser
+			// rejects (a ';' inside a value, a stray '%') although every lenient reader still finds q
+			switch rapid.IntRange(0, 7).Draw(t, "qextra") {
+			case 0:
+				tx.Query = "page=2&" + tx.Query + "&sort=asc"
+			case 1:
+				tx.Query += "&fields=id;name"
+			case 2:
+				tx.Query = "discount=10%&" + tx.Query
+			case 3:
+				tx.Query += "&name=caf%C3%A9+au+lait&empty="
+			}
 		}
 		if tx.Response {
 			tx.Status = rapid.SampledFrom([]int{200, 404, 500, 201}).Draw(t, "st")
